@@ -33,7 +33,7 @@ theorem good_retainIntoTransit {s : State} (h : Inv s) (k : Nat) {v : Val} (hv :
     Good s (retainIntoTransit s k v) := by
   unfold retainIntoTransit
   have hsr := sameRoots_retain s v
-  refine ⟨inv_retain_add h hv ⟨rfl, rfl, rfl, rfl, rfl, rfl⟩ ?_,
+  refine ⟨inv_retain_add h hv ⟨rfl, rfl, rfl, rfl, rfl, rfl, rfl⟩ ?_,
     (Stable.of_sameRoots hsr).trans (Stable.of_eq rfl rfl)⟩
   intro i
   have := countList_take_append_drop i k v s.transit
@@ -48,7 +48,7 @@ number of occurrences of every slot -/
 theorem good_move {s : State} (h : Inv s) {pid : Nat} {p p' : Proc} (hp : s.getProc pid = some p)
     (tr : List Val) (hc : ∀ i, p'.count i + countList i tr = p.count i + countList i s.transit) :
     Good s { (s.setProc pid p') with transit := tr } := by
-  refine ⟨inv_move h ⟨rfl, rfl, rfl, rfl, rfl, rfl⟩ ?_, Stable.of_eq rfl rfl⟩
+  refine ⟨inv_move h ⟨rfl, rfl, rfl, rfl, rfl, rfl, rfl⟩ ?_, Stable.of_eq rfl rfl⟩
   intro i
   have := total_setProc s pid p p' i hp
   have := hc i
@@ -61,7 +61,7 @@ theorem good_retain_move {s : State} (h : Inv s) {v : Val} (hv : Live s v) {pid 
     (hc : ∀ i, p'.count i + countList i tr = p.count i + countList i s.transit + v.count i) :
     Good s { ((retain s v).setProc pid p') with transit := tr } := by
   have hsr := sameRoots_retain s v
-  refine ⟨inv_retain_add h hv ⟨rfl, rfl, rfl, rfl, rfl, rfl⟩ ?_,
+  refine ⟨inv_retain_add h hv ⟨rfl, rfl, rfl, rfl, rfl, rfl, rfl⟩ ?_,
     (Stable.of_sameRoots hsr).trans (Stable.of_eq rfl rfl)⟩
   intro i
   have := total_setProc (retain s v) pid p p' i (by rw [getProc_of_sameRoots hsr]; exact hp)
